@@ -88,6 +88,22 @@ module Nat =
 
   let ltb n m =
     leb (S n) m
+
+  (** val divmod : nat -> nat -> nat -> nat -> nat * nat **)
+
+  let rec divmod x y q0 u =
+    match x with
+    | O -> (q0, u)
+    | S x' ->
+      (match u with
+       | O -> divmod x' y (S q0) y
+       | S u' -> divmod x' y q0 u')
+
+  (** val div : nat -> nat -> nat **)
+
+  let div x y = match y with
+  | O -> y
+  | S y' -> fst (divmod x y' O y')
  end
 
 (** val nth : nat -> 'a1 list -> 'a1 -> 'a1 **)
@@ -116,6 +132,12 @@ let rec nth_error l = function
 let rec map f = function
 | [] -> []
 | a :: t -> (f a) :: (map f t)
+
+(** val flat_map : ('a1 -> 'a2 list) -> 'a1 list -> 'a2 list **)
+
+let rec flat_map f = function
+| [] -> []
+| x :: t -> app (f x) (flat_map f t)
 
 (** val fold_left : ('a1 -> 'a2 -> 'a1) -> 'a2 list -> 'a1 -> 'a1 **)
 
@@ -179,6 +201,14 @@ type z =
 
 module Pos =
  struct
+  type mask =
+  | IsNul
+  | IsPos of positive
+  | IsNeg
+ end
+
+module Coq_Pos =
+ struct
   (** val succ : positive -> positive **)
 
   let rec succ = function
@@ -192,17 +222,17 @@ module Pos =
     match x with
     | XI p ->
       (match y with
-       | XI q -> XO (add_carry p q)
-       | XO q -> XI (add p q)
+       | XI q0 -> XO (add_carry p q0)
+       | XO q0 -> XI (add p q0)
        | XH -> XO (succ p))
     | XO p ->
       (match y with
-       | XI q -> XI (add p q)
-       | XO q -> XO (add p q)
+       | XI q0 -> XI (add p q0)
+       | XO q0 -> XO (add p q0)
        | XH -> XI p)
     | XH -> (match y with
-             | XI q -> XO (succ q)
-             | XO q -> XI q
+             | XI q0 -> XO (succ q0)
+             | XO q0 -> XI q0
              | XH -> XO XH)
 
   (** val add_carry : positive -> positive -> positive **)
@@ -211,18 +241,18 @@ module Pos =
     match x with
     | XI p ->
       (match y with
-       | XI q -> XI (add_carry p q)
-       | XO q -> XO (add_carry p q)
+       | XI q0 -> XI (add_carry p q0)
+       | XO q0 -> XO (add_carry p q0)
        | XH -> XI (succ p))
     | XO p ->
       (match y with
-       | XI q -> XO (add_carry p q)
-       | XO q -> XI (add p q)
+       | XI q0 -> XO (add_carry p q0)
+       | XO q0 -> XI (add p q0)
        | XH -> XO (succ p))
     | XH ->
       (match y with
-       | XI q -> XI (succ q)
-       | XO q -> XO (succ q)
+       | XI q0 -> XI (succ q0)
+       | XO q0 -> XO (succ q0)
        | XH -> XI XH)
 
   (** val pred_double : positive -> positive **)
@@ -232,6 +262,72 @@ module Pos =
   | XO p -> XI (pred_double p)
   | XH -> XH
 
+  type mask = Pos.mask =
+  | IsNul
+  | IsPos of positive
+  | IsNeg
+
+  (** val succ_double_mask : mask -> mask **)
+
+  let succ_double_mask = function
+  | IsNul -> IsPos XH
+  | IsPos p -> IsPos (XI p)
+  | IsNeg -> IsNeg
+
+  (** val double_mask : mask -> mask **)
+
+  let double_mask = function
+  | IsPos p -> IsPos (XO p)
+  | x0 -> x0
+
+  (** val double_pred_mask : positive -> mask **)
+
+  let double_pred_mask = function
+  | XI p -> IsPos (XO (XO p))
+  | XO p -> IsPos (XO (pred_double p))
+  | XH -> IsNul
+
+  (** val sub_mask : positive -> positive -> mask **)
+
+  let rec sub_mask x y =
+    match x with
+    | XI p ->
+      (match y with
+       | XI q0 -> double_mask (sub_mask p q0)
+       | XO q0 -> succ_double_mask (sub_mask p q0)
+       | XH -> IsPos (XO p))
+    | XO p ->
+      (match y with
+       | XI q0 -> succ_double_mask (sub_mask_carry p q0)
+       | XO q0 -> double_mask (sub_mask p q0)
+       | XH -> IsPos (pred_double p))
+    | XH -> (match y with
+             | XH -> IsNul
+             | _ -> IsNeg)
+
+  (** val sub_mask_carry : positive -> positive -> mask **)
+
+  and sub_mask_carry x y =
+    match x with
+    | XI p ->
+      (match y with
+       | XI q0 -> succ_double_mask (sub_mask_carry p q0)
+       | XO q0 -> double_mask (sub_mask p q0)
+       | XH -> IsPos (pred_double p))
+    | XO p ->
+      (match y with
+       | XI q0 -> double_mask (sub_mask_carry p q0)
+       | XO q0 -> succ_double_mask (sub_mask_carry p q0)
+       | XH -> double_pred_mask p)
+    | XH -> IsNeg
+
+  (** val sub : positive -> positive -> positive **)
+
+  let sub x y =
+    match sub_mask x y with
+    | IsPos z0 -> z0
+    | _ -> XH
+
   (** val mul : positive -> positive -> positive **)
 
   let rec mul x y =
@@ -240,19 +336,26 @@ module Pos =
     | XO p -> XO (mul p y)
     | XH -> y
 
+  (** val size_nat : positive -> nat **)
+
+  let rec size_nat = function
+  | XI p0 -> S (size_nat p0)
+  | XO p0 -> S (size_nat p0)
+  | XH -> S O
+
   (** val compare_cont : comparison -> positive -> positive -> comparison **)
 
   let rec compare_cont r x y =
     match x with
     | XI p ->
       (match y with
-       | XI q -> compare_cont r p q
-       | XO q -> compare_cont Gt p q
+       | XI q0 -> compare_cont r p q0
+       | XO q0 -> compare_cont Gt p q0
        | XH -> Gt)
     | XO p ->
       (match y with
-       | XI q -> compare_cont Lt p q
-       | XO q -> compare_cont r p q
+       | XI q0 -> compare_cont Lt p q0
+       | XO q0 -> compare_cont r p q0
        | XH -> Gt)
     | XH -> (match y with
              | XH -> r
@@ -262,6 +365,57 @@ module Pos =
 
   let compare =
     compare_cont Eq
+
+  (** val eqb : positive -> positive -> bool **)
+
+  let rec eqb p q0 =
+    match p with
+    | XI p0 -> (match q0 with
+                | XI q1 -> eqb p0 q1
+                | _ -> false)
+    | XO p0 -> (match q0 with
+                | XO q1 -> eqb p0 q1
+                | _ -> false)
+    | XH -> (match q0 with
+             | XH -> true
+             | _ -> false)
+
+  (** val ggcdn :
+      nat -> positive -> positive -> positive * (positive * positive) **)
+
+  let rec ggcdn n a b =
+    match n with
+    | O -> (XH, (a, b))
+    | S n0 ->
+      (match a with
+       | XI a' ->
+         (match b with
+          | XI b' ->
+            (match compare a' b' with
+             | Eq -> (a, (XH, XH))
+             | Lt ->
+               let (g, p) = ggcdn n0 (sub b' a') a in
+               let (ba, aa) = p in (g, (aa, (add aa (XO ba))))
+             | Gt ->
+               let (g, p) = ggcdn n0 (sub a' b') b in
+               let (ab, bb) = p in (g, ((add bb (XO ab)), bb)))
+          | XO b0 ->
+            let (g, p) = ggcdn n0 a b0 in
+            let (aa, bb) = p in (g, (aa, (XO bb)))
+          | XH -> (XH, (a, XH)))
+       | XO a0 ->
+         (match b with
+          | XI _ ->
+            let (g, p) = ggcdn n0 a0 b in
+            let (aa, bb) = p in (g, ((XO aa), bb))
+          | XO b0 -> let (g, p) = ggcdn n0 a0 b0 in ((XO g), p)
+          | XH -> (XH, (a, XH)))
+       | XH -> (XH, (XH, b)))
+
+  (** val ggcd : positive -> positive -> positive * (positive * positive) **)
+
+  let ggcd a b =
+    ggcdn (Coq__1.add (size_nat a) (size_nat b)) a b
 
   (** val iter_op : ('a1 -> 'a1 -> 'a1) -> positive -> 'a1 -> 'a1 **)
 
@@ -297,13 +451,13 @@ module Z =
   let succ_double = function
   | Z0 -> Zpos XH
   | Zpos p -> Zpos (XI p)
-  | Zneg p -> Zneg (Pos.pred_double p)
+  | Zneg p -> Zneg (Coq_Pos.pred_double p)
 
   (** val pred_double : z -> z **)
 
   let pred_double = function
   | Z0 -> Zneg XH
-  | Zpos p -> Zpos (Pos.pred_double p)
+  | Zpos p -> Zpos (Coq_Pos.pred_double p)
   | Zneg p -> Zneg (XI p)
 
   (** val pos_sub : positive -> positive -> z **)
@@ -312,18 +466,18 @@ module Z =
     match x with
     | XI p ->
       (match y with
-       | XI q -> double (pos_sub p q)
-       | XO q -> succ_double (pos_sub p q)
+       | XI q0 -> double (pos_sub p q0)
+       | XO q0 -> succ_double (pos_sub p q0)
        | XH -> Zpos (XO p))
     | XO p ->
       (match y with
-       | XI q -> pred_double (pos_sub p q)
-       | XO q -> double (pos_sub p q)
-       | XH -> Zpos (Pos.pred_double p))
+       | XI q0 -> pred_double (pos_sub p q0)
+       | XO q0 -> double (pos_sub p q0)
+       | XH -> Zpos (Coq_Pos.pred_double p))
     | XH ->
       (match y with
-       | XI q -> Zneg (XO q)
-       | XO q -> Zneg (Pos.pred_double q)
+       | XI q0 -> Zneg (XO q0)
+       | XO q0 -> Zneg (Coq_Pos.pred_double q0)
        | XH -> Z0)
 
   (** val add : z -> z -> z **)
@@ -334,13 +488,13 @@ module Z =
     | Zpos x' ->
       (match y with
        | Z0 -> x
-       | Zpos y' -> Zpos (Pos.add x' y')
+       | Zpos y' -> Zpos (Coq_Pos.add x' y')
        | Zneg y' -> pos_sub x' y')
     | Zneg x' ->
       (match y with
        | Z0 -> x
        | Zpos y' -> pos_sub y' x'
-       | Zneg y' -> Zneg (Pos.add x' y'))
+       | Zneg y' -> Zneg (Coq_Pos.add x' y'))
 
   (** val opp : z -> z **)
 
@@ -348,6 +502,11 @@ module Z =
   | Z0 -> Z0
   | Zpos x0 -> Zneg x0
   | Zneg x0 -> Zpos x0
+
+  (** val sub : z -> z -> z **)
+
+  let sub m n =
+    add m (opp n)
 
   (** val mul : z -> z -> z **)
 
@@ -357,13 +516,13 @@ module Z =
     | Zpos x' ->
       (match y with
        | Z0 -> Z0
-       | Zpos y' -> Zpos (Pos.mul x' y')
-       | Zneg y' -> Zneg (Pos.mul x' y'))
+       | Zpos y' -> Zpos (Coq_Pos.mul x' y')
+       | Zneg y' -> Zneg (Coq_Pos.mul x' y'))
     | Zneg x' ->
       (match y with
        | Z0 -> Z0
-       | Zpos y' -> Zneg (Pos.mul x' y')
-       | Zneg y' -> Zpos (Pos.mul x' y'))
+       | Zpos y' -> Zneg (Coq_Pos.mul x' y')
+       | Zneg y' -> Zpos (Coq_Pos.mul x' y'))
 
   (** val compare : z -> z -> comparison **)
 
@@ -374,12 +533,26 @@ module Z =
              | Zpos _ -> Lt
              | Zneg _ -> Gt)
     | Zpos x' -> (match y with
-                  | Zpos y' -> Pos.compare x' y'
+                  | Zpos y' -> Coq_Pos.compare x' y'
                   | _ -> Gt)
     | Zneg x' ->
       (match y with
-       | Zneg y' -> compOpp (Pos.compare x' y')
+       | Zneg y' -> compOpp (Coq_Pos.compare x' y')
        | _ -> Lt)
+
+  (** val sgn : z -> z **)
+
+  let sgn = function
+  | Z0 -> Z0
+  | Zpos _ -> Zpos XH
+  | Zneg _ -> Zneg XH
+
+  (** val leb : z -> z -> bool **)
+
+  let leb x y =
+    match compare x y with
+    | Gt -> false
+    | _ -> true
 
   (** val ltb : z -> z -> bool **)
 
@@ -388,18 +561,124 @@ module Z =
     | Lt -> true
     | _ -> false
 
+  (** val eqb : z -> z -> bool **)
+
+  let eqb x y =
+    match x with
+    | Z0 -> (match y with
+             | Z0 -> true
+             | _ -> false)
+    | Zpos p -> (match y with
+                 | Zpos q0 -> Coq_Pos.eqb p q0
+                 | _ -> false)
+    | Zneg p -> (match y with
+                 | Zneg q0 -> Coq_Pos.eqb p q0
+                 | _ -> false)
+
+  (** val abs : z -> z **)
+
+  let abs = function
+  | Zneg p -> Zpos p
+  | x -> x
+
   (** val to_nat : z -> nat **)
 
   let to_nat = function
-  | Zpos p -> Pos.to_nat p
+  | Zpos p -> Coq_Pos.to_nat p
   | _ -> O
 
   (** val of_nat : nat -> z **)
 
   let of_nat = function
   | O -> Z0
-  | S n0 -> Zpos (Pos.of_succ_nat n0)
+  | S n0 -> Zpos (Coq_Pos.of_succ_nat n0)
+
+  (** val to_pos : z -> positive **)
+
+  let to_pos = function
+  | Zpos p -> p
+  | _ -> XH
+
+  (** val pos_div_eucl : positive -> z -> z * z **)
+
+  let rec pos_div_eucl a b =
+    match a with
+    | XI a' ->
+      let (q0, r) = pos_div_eucl a' b in
+      let r' = add (mul (Zpos (XO XH)) r) (Zpos XH) in
+      if ltb r' b
+      then ((mul (Zpos (XO XH)) q0), r')
+      else ((add (mul (Zpos (XO XH)) q0) (Zpos XH)), (sub r' b))
+    | XO a' ->
+      let (q0, r) = pos_div_eucl a' b in
+      let r' = mul (Zpos (XO XH)) r in
+      if ltb r' b
+      then ((mul (Zpos (XO XH)) q0), r')
+      else ((add (mul (Zpos (XO XH)) q0) (Zpos XH)), (sub r' b))
+    | XH -> if leb (Zpos (XO XH)) b then (Z0, (Zpos XH)) else ((Zpos XH), Z0)
+
+  (** val div_eucl : z -> z -> z * z **)
+
+  let div_eucl a b =
+    match a with
+    | Z0 -> (Z0, Z0)
+    | Zpos a' ->
+      (match b with
+       | Z0 -> (Z0, a)
+       | Zpos _ -> pos_div_eucl a' b
+       | Zneg b' ->
+         let (q0, r) = pos_div_eucl a' (Zpos b') in
+         (match r with
+          | Z0 -> ((opp q0), Z0)
+          | _ -> ((opp (add q0 (Zpos XH))), (add b r))))
+    | Zneg a' ->
+      (match b with
+       | Z0 -> (Z0, a)
+       | Zpos _ ->
+         let (q0, r) = pos_div_eucl a' b in
+         (match r with
+          | Z0 -> ((opp q0), Z0)
+          | _ -> ((opp (add q0 (Zpos XH))), (sub b r)))
+       | Zneg b' -> let (q0, r) = pos_div_eucl a' (Zpos b') in (q0, (opp r)))
+
+  (** val modulo : z -> z -> z **)
+
+  let modulo a b =
+    let (_, r) = div_eucl a b in r
+
+  (** val ggcd : z -> z -> z * (z * z) **)
+
+  let ggcd a b =
+    match a with
+    | Z0 -> ((abs b), (Z0, (sgn b)))
+    | Zpos a0 ->
+      (match b with
+       | Z0 -> ((abs a), ((sgn a), Z0))
+       | Zpos b0 ->
+         let (g, p) = Coq_Pos.ggcd a0 b0 in
+         let (aa, bb) = p in ((Zpos g), ((Zpos aa), (Zpos bb)))
+       | Zneg b0 ->
+         let (g, p) = Coq_Pos.ggcd a0 b0 in
+         let (aa, bb) = p in ((Zpos g), ((Zpos aa), (Zneg bb))))
+    | Zneg a0 ->
+      (match b with
+       | Z0 -> ((abs a), ((sgn a), Z0))
+       | Zpos b0 ->
+         let (g, p) = Coq_Pos.ggcd a0 b0 in
+         let (aa, bb) = p in ((Zpos g), ((Zneg aa), (Zpos bb)))
+       | Zneg b0 ->
+         let (g, p) = Coq_Pos.ggcd a0 b0 in
+         let (aa, bb) = p in ((Zpos g), ((Zneg aa), (Zneg bb))))
  end
+
+type q = { qnum : z; qden : positive }
+
+(** val qred : q -> q **)
+
+let qred q0 =
+  let { qnum = q1; qden = q2 } = q0 in
+  let (r1, r2) = snd (Z.ggcd q1 (Zpos q2)) in
+  { qnum = r1; qden = (Z.to_pos r2) }
 
 type sx =
 | SZ of z
@@ -451,6 +730,30 @@ let dlist f = function
 | SZ _ -> None
 | SL l -> opt_all (map f l)
 
+(** val dq : sx -> q option **)
+
+let dq = function
+| SZ _ -> None
+| SL l ->
+  (match l with
+   | [] -> None
+   | s0 :: l0 ->
+     (match s0 with
+      | SZ n ->
+        (match l0 with
+         | [] -> None
+         | s1 :: l1 ->
+           (match s1 with
+            | SZ d ->
+              (match l1 with
+               | [] ->
+                 if Z.ltb Z0 d
+                 then Some { qnum = n; qden = (Z.to_pos d) }
+                 else None
+               | _ :: _ -> None)
+            | SL _ -> None))
+      | SL _ -> None))
+
 (** val ez : z -> sx **)
 
 let ez z0 =
@@ -470,6 +773,11 @@ let ebool b =
 
 let elist f l =
   SL (map f l)
+
+(** val eq_ : q -> sx **)
+
+let eq_ q0 =
+  let r = qred q0 in SL ((SZ r.qnum) :: ((SZ (Zpos r.qden)) :: []))
 
 (** val eopt : ('a1 -> sx) -> 'a1 option -> sx **)
 
@@ -672,6 +980,397 @@ let iter_next s it =
        else let i = nth it.it_pos s.olist O in
             ({ it_pos = (S it.it_pos); it_add = it.it_add; it_clear =
             it.it_clear }, (Yield (i, (get_row s i))))
+
+type selection =
+| Mu
+| Filter
+
+type restart_rule =
+| Basic
+| NoImprovement
+| EveryN of z
+
+type emitter_kind =
+| ESE
+| GAE
+
+type cfg = { c_kind : emitter_kind; c_sel : selection; c_rule : restart_rule;
+             c_batch : nat }
+
+(** val count_new : z list -> nat **)
+
+let count_new statuses =
+  fold_left (fun acc z0 -> if Z.eqb z0 Z0 then acc else S acc) statuses O
+
+(** val num_parents : cfg -> nat -> nat **)
+
+let num_parents c new_sols =
+  match c.c_sel with
+  | Mu -> Nat.div c.c_batch (S (S O))
+  | Filter -> new_sols
+
+(** val check_restart : restart_rule -> nat -> nat -> bool **)
+
+let check_restart r itrs0 n_new =
+  match r with
+  | Basic -> false
+  | NoImprovement -> Nat.eqb n_new O
+  | EveryN n -> Z.eqb (Z.modulo (Z.of_nat itrs0) n) Z0
+
+type ('p, 'v) action =
+| ARank of 'p list * z list
+| AOptTell of nat list * 'v list * nat
+| ACheckStop of 'v list
+| ASample of nat
+| AGradReset of 'p
+| AOptReset of 'p option
+| ARankerReset
+
+type ('p, 'v) env = { e_ask : 'p list; e_status : z list;
+                      e_rank : ('p list -> z list -> nat list * 'v list);
+                      e_stop : ('v list -> bool); e_archive : 'p list;
+                      e_pick : nat }
+
+type 'p state = { itrs : nat; restarts : nat; center : 'p option;
+                  ranker_epoch : nat }
+
+(** val init_state : 'a1 state **)
+
+let init_state =
+  { itrs = O; restarts = O; center = None; ranker_epoch = O }
+
+(** val construct : cfg -> 'a1 -> ('a1, 'a2) action list result **)
+
+let construct c x0 =
+  match c.c_rule with
+  | EveryN n ->
+    (match n with
+     | Z0 -> Err OtherError
+     | _ ->
+       Ok
+         (match c.c_kind with
+          | ESE -> (AOptReset (Some x0)) :: (ARankerReset :: [])
+          | GAE -> ARankerReset :: ((AOptReset None) :: [])))
+  | _ ->
+    Ok
+      (match c.c_kind with
+       | ESE -> (AOptReset (Some x0)) :: (ARankerReset :: [])
+       | GAE -> ARankerReset :: ((AOptReset None) :: []))
+
+(** val ask : ('a1, 'a2) env -> 'a1 list **)
+
+let ask e =
+  e.e_ask
+
+(** val take_rows : 'a1 list -> nat list -> 'a1 list **)
+
+let take_rows vals idx =
+  flat_map (fun i ->
+    match nth_error vals i with
+    | Some v -> v :: []
+    | None -> []) idx
+
+(** val sample_elite : ('a1, 'a2) env -> 'a1 option **)
+
+let sample_elite e =
+  match e.e_archive with
+  | [] -> None
+  | _ :: _ -> nth_error e.e_archive e.e_pick
+
+(** val restart_actions : cfg -> 'a1 -> ('a1, 'a2) action list **)
+
+let restart_actions c x =
+  match c.c_kind with
+  | ESE -> (AOptReset (Some x)) :: (ARankerReset :: [])
+  | GAE -> (AGradReset x) :: ((AOptReset None) :: (ARankerReset :: []))
+
+(** val tell :
+    cfg -> ('a1, 'a2) env -> 'a1 state -> 'a1 list -> z list -> (('a1, 'a2)
+    action list * 'a1 state) * unit result **)
+
+let tell c e s rows0 statuses =
+  let itrs1 = S s.itrs in
+  let new_sols = count_new statuses in
+  let (indices, vals) = e.e_rank rows0 statuses in
+  let np = num_parents c new_sols in
+  let sorted = take_rows vals indices in
+  let log = (ARank (rows0, statuses)) :: ((AOptTell (indices, vals,
+    np)) :: ((ACheckStop sorted) :: []))
+  in
+  if (||) (e.e_stop sorted) (check_restart c.c_rule itrs1 new_sols)
+  then (match sample_elite e with
+        | Some x ->
+          (((app log ((ASample (S O)) :: (restart_actions c x))), { itrs =
+            itrs1; restarts = (S s.restarts); center = (Some x);
+            ranker_epoch = (S s.ranker_epoch) }), (Ok ()))
+        | None ->
+          (((app log ((ASample (S O)) :: [])), { itrs = itrs1; restarts =
+            s.restarts; center = s.center; ranker_epoch = s.ranker_epoch }),
+            (Err IndexError)))
+  else ((log, { itrs = itrs1; restarts = s.restarts; center = s.center;
+         ranker_epoch = s.ranker_epoch }), (Ok ()))
+
+(** val c10_err_code : err -> z **)
+
+let c10_err_code = function
+| ValueError -> Zpos XH
+| IndexError -> Zpos (XO XH)
+| RuntimeError -> Zpos (XI XH)
+| KeyError -> Zpos (XO (XO XH))
+| TypeError -> Zpos (XI (XO XH))
+| StopIteration -> Zpos (XO (XI XH))
+| OtherError -> Zpos (XI (XI XH))
+
+(** val dcfg : sx -> cfg option **)
+
+let dcfg = function
+| SZ _ -> None
+| SL l ->
+  (match l with
+   | [] -> None
+   | k :: l0 ->
+     (match l0 with
+      | [] -> None
+      | sel :: l1 ->
+        (match l1 with
+         | [] -> None
+         | rule :: l2 ->
+           (match l2 with
+            | [] -> None
+            | b :: l3 ->
+              (match l3 with
+               | [] ->
+                 (match dbool k with
+                  | Some kk ->
+                    (match dbool sel with
+                     | Some ss ->
+                       (match dnat b with
+                        | Some bb ->
+                          let kind = if kk then GAE else ESE in
+                          let sl = if ss then Filter else Mu in
+                          (match rule with
+                           | SZ _ -> None
+                           | SL l4 ->
+                             (match l4 with
+                              | [] -> None
+                              | s0 :: l5 ->
+                                (match s0 with
+                                 | SZ z0 ->
+                                   (match z0 with
+                                    | Z0 ->
+                                      (match l5 with
+                                       | [] ->
+                                         Some { c_kind = kind; c_sel = sl;
+                                           c_rule = Basic; c_batch = bb }
+                                       | _ :: _ -> None)
+                                    | Zpos p ->
+                                      (match p with
+                                       | XI _ -> None
+                                       | XO p0 ->
+                                         (match p0 with
+                                          | XH ->
+                                            (match l5 with
+                                             | [] -> None
+                                             | s1 :: l6 ->
+                                               (match s1 with
+                                                | SZ n ->
+                                                  (match l6 with
+                                                   | [] ->
+                                                     Some { c_kind = kind;
+                                                       c_sel = sl; c_rule =
+                                                       (EveryN n); c_batch =
+                                                       bb }
+                                                   | _ :: _ -> None)
+                                                | SL _ -> None))
+                                          | _ -> None)
+                                       | XH ->
+                                         (match l5 with
+                                          | [] ->
+                                            Some { c_kind = kind; c_sel = sl;
+                                              c_rule = NoImprovement;
+                                              c_batch = bb }
+                                          | _ :: _ -> None))
+                                    | Zneg _ -> None)
+                                 | SL _ -> None)))
+                        | None -> None)
+                     | None -> None)
+                  | None -> None)
+               | _ :: _ -> None)))))
+
+(** val evals : q list list -> sx **)
+
+let evals v =
+  elist (elist eq_) v
+
+(** val eaction : (z, q list) action -> sx **)
+
+let eaction = function
+| ARank (rows0, sts) ->
+  SL ((SZ Z0) :: ((elist ez rows0) :: ((elist ez sts) :: [])))
+| AOptTell (idx, vals, np) ->
+  SL ((SZ (Zpos
+    XH)) :: ((elist enat idx) :: ((evals vals) :: ((enat np) :: []))))
+| ACheckStop vals -> SL ((SZ (Zpos (XO XH))) :: ((evals vals) :: []))
+| ASample n -> SL ((SZ (Zpos (XI XH))) :: ((enat n) :: []))
+| AGradReset x -> SL ((SZ (Zpos (XO (XO XH)))) :: ((ez x) :: []))
+| AOptReset o -> SL ((SZ (Zpos (XI (XO XH)))) :: ((eopt ez o) :: []))
+| ARankerReset -> SL ((SZ (Zpos (XO (XI XH)))) :: [])
+
+(** val run_op10 : cfg -> z state -> sx -> z state * sx **)
+
+let run_op10 c s = function
+| SZ _ -> (s, sx_fail)
+| SL l ->
+  (match l with
+   | [] -> (s, sx_fail)
+   | s0 :: l0 ->
+     (match s0 with
+      | SZ z0 ->
+        (match z0 with
+         | Z0 ->
+           (match l0 with
+            | [] -> (s, sx_fail)
+            | x0 :: l1 ->
+              (match l1 with
+               | [] ->
+                 (match dz x0 with
+                  | Some x ->
+                    (s,
+                      (match construct c x with
+                       | Ok log -> SL ((SZ Z0) :: ((elist eaction log) :: []))
+                       | Err e -> SL ((SZ (c10_err_code e)) :: [])))
+                  | None -> (s, sx_fail))
+               | _ :: _ -> (s, sx_fail)))
+         | Zpos p ->
+           (match p with
+            | XI _ -> (s, sx_fail)
+            | XO p0 ->
+              (match p0 with
+               | XH ->
+                 (match l0 with
+                  | [] -> (s, sx_fail)
+                  | rows0 :: l1 ->
+                    (match l1 with
+                     | [] -> (s, sx_fail)
+                     | sts :: l2 ->
+                       (match l2 with
+                        | [] -> (s, sx_fail)
+                        | ridx :: l3 ->
+                          (match l3 with
+                           | [] -> (s, sx_fail)
+                           | rvals :: l4 ->
+                             (match l4 with
+                              | [] -> (s, sx_fail)
+                              | stop :: l5 ->
+                                (match l5 with
+                                 | [] -> (s, sx_fail)
+                                 | arch :: l6 ->
+                                   (match l6 with
+                                    | [] -> (s, sx_fail)
+                                    | pick :: l7 ->
+                                      (match l7 with
+                                       | [] ->
+                                         (match dlist dz rows0 with
+                                          | Some r ->
+                                            (match dlist dz sts with
+                                             | Some st0 ->
+                                               (match dlist dnat ridx with
+                                                | Some ri ->
+                                                  (match dlist (dlist dq)
+                                                           rvals with
+                                                   | Some rv ->
+                                                     (match dbool stop with
+                                                      | Some sp ->
+                                                        (match dlist dz arch with
+                                                         | Some ar ->
+                                                           (match dnat pick with
+                                                            | Some pk ->
+                                                              let e =
+                                                                { e_ask = r;
+                                                                e_status =
+                                                                st0; e_rank =
+                                                                (fun _ _ ->
+                                                                (ri, rv));
+                                                                e_stop =
+                                                                (fun _ ->
+                                                                sp);
+                                                                e_archive =
+                                                                ar; e_pick =
+                                                                pk }
+                                                              in
+                                                              let (p1, res) =
+                                                                tell c e s r
+                                                                  st0
+                                                              in
+                                                              let (log, s') =
+                                                                p1
+                                                              in
+                                                              (s', (SL
+                                                              ((elist eaction
+                                                                 log) :: (
+                                                              (enat s'.itrs) :: (
+                                                              (enat
+                                                                s'.restarts) :: ((SZ
+                                                              (match res with
+                                                               | Ok _ -> Z0
+                                                               | Err er ->
+                                                                 c10_err_code
+                                                                   er)) :: []))))))
+                                                            | None ->
+                                                              (s, sx_fail))
+                                                         | None ->
+                                                           (s, sx_fail))
+                                                      | None -> (s, sx_fail))
+                                                   | None -> (s, sx_fail))
+                                                | None -> (s, sx_fail))
+                                             | None -> (s, sx_fail))
+                                          | None -> (s, sx_fail))
+                                       | _ :: _ -> (s, sx_fail)))))))))
+               | _ -> (s, sx_fail))
+            | XH ->
+              (match l0 with
+               | [] -> (s, sx_fail)
+               | rows0 :: l1 ->
+                 (match l1 with
+                  | [] ->
+                    (match dlist dz rows0 with
+                     | Some r ->
+                       (s,
+                         (elist ez
+                           (ask { e_ask = r; e_status = []; e_rank =
+                             (fun _ _ -> ([], [])); e_stop = (fun _ ->
+                             false); e_archive = []; e_pick = O })))
+                     | None -> (s, sx_fail))
+                  | _ :: _ -> (s, sx_fail))))
+         | Zneg _ -> (s, sx_fail))
+      | SL _ -> (s, sx_fail)))
+
+(** val run_ops10 : cfg -> z state -> sx list -> sx list **)
+
+let rec run_ops10 c s = function
+| [] -> []
+| o :: t -> let (s', out) = run_op10 c s o in out :: (run_ops10 c s' t)
+
+(** val run_C10 : sx -> sx **)
+
+let run_C10 = function
+| SZ _ -> sx_fail
+| SL l ->
+  (match l with
+   | [] -> sx_fail
+   | c :: l0 ->
+     (match l0 with
+      | [] -> sx_fail
+      | s :: l1 ->
+        (match s with
+         | SZ _ -> sx_fail
+         | SL ops ->
+           (match l1 with
+            | [] ->
+              (match dcfg c with
+               | Some cc -> SL (run_ops10 cc init_state ops)
+               | None -> sx_fail)
+            | _ :: _ -> sx_fail))))
 
 (** val err_code : err -> z **)
 
